@@ -42,6 +42,11 @@ type tqCase struct {
 	SlowWatcherMs int   `json:"slow_watcher_ms,omitempty"`
 	LateAdds      []int `json:"late_adds,omitempty"`
 	Sizes         []int `json:"sizes,omitempty"` // per oid (default 3): batches are sorted by descending size
+	// how expiry is spelled: expired actions {0 expires_at an hour ago, 1 expires_at in 2 s (inside the 5 s
+	// margin), 2 expires_in 2, 3 expires_in -30, 4 expires_in 2 beside a far-future expires_at (expires_in wins)};
+	// usable actions {0 no expiry, 1 expires_at in an hour, 2 expires_in 3600, 3 expires_in 3600 beside a past expires_at}
+	ExpStyle int `json:"exp_style,omitempty"`
+	OkStyle  int `json:"ok_style,omitempty"`
 }
 
 func (tc tqCase) size(i int) int64 {
@@ -220,10 +225,21 @@ func (w *tqWorld) batchHandler(rw http.ResponseWriter, r *http.Request) {
 		p := strings.SplitN(call, ":", 2)
 		code, _ := strconv.Atoi(p[0])
 		if len(p) == 2 {
-			rw.Header().Set("Retry-After", p[1])
-			secs, _ := strconv.Atoi(p[1])
-			for _, o := range oids {
-				w.obs.NotBefore[o] = w.ms() + int64(secs)*1000 - 50
+			switch p[1] {
+			case "date": // Retry-After as an HTTP-date (whole seconds): 1-2 s from now
+				t := time.Now().Add(2 * time.Second).Truncate(time.Second)
+				rw.Header().Set("Retry-After", t.UTC().Format(http.TimeFormat))
+				for _, o := range oids {
+					w.obs.NotBefore[o] = t.Sub(w.start).Milliseconds() - 50
+				}
+			case "garbage": // not a delay at all: the ordinary back-off applies
+				rw.Header().Set("Retry-After", "soon")
+			default:
+				rw.Header().Set("Retry-After", p[1])
+				secs, _ := strconv.Atoi(p[1])
+				for _, o := range oids {
+					w.obs.NotBefore[o] = w.ms() + int64(secs)*1000 - 50
+				}
 			}
 		}
 		rw.WriteHeader(code)
@@ -233,6 +249,7 @@ func (w *tqWorld) batchHandler(rw http.ResponseWriter, r *http.Request) {
 	type act struct {
 		Href      string `json:"href"`
 		ExpiresAt string `json:"expires_at,omitempty"`
+		ExpiresIn int    `json:"expires_in,omitempty"`
 	}
 	type oerr struct {
 		Code    int    `json:"code"`
@@ -274,9 +291,31 @@ func (w *tqWorld) batchHandler(rw http.ResponseWriter, r *http.Request) {
 		case "error":
 			ob.Error = &oerr{404, "scripted object error"}
 		case "expired":
-			ob.Actions = map[string]act{rel: {Href: "http://storage.invalid/" + o.Oid, ExpiresAt: time.Now().Add(-time.Hour).Format(time.RFC3339)}}
+			a := act{Href: "http://storage.invalid/" + o.Oid}
+			switch w.tc.ExpStyle {
+			case 1:
+				a.ExpiresAt = time.Now().Add(2 * time.Second).Format(time.RFC3339)
+			case 2:
+				a.ExpiresIn = 2
+			case 3:
+				a.ExpiresIn = -30
+			case 4:
+				a.ExpiresIn, a.ExpiresAt = 2, time.Now().Add(24*time.Hour).Format(time.RFC3339)
+			default:
+				a.ExpiresAt = time.Now().Add(-time.Hour).Format(time.RFC3339)
+			}
+			ob.Actions = map[string]act{rel: a}
 		case "action", "dup", "missing":
-			ob.Actions = map[string]act{rel: {Href: "http://storage.invalid/" + o.Oid}}
+			a := act{Href: "http://storage.invalid/" + o.Oid}
+			switch w.tc.OkStyle {
+			case 1:
+				a.ExpiresAt = time.Now().Add(time.Hour).Format(time.RFC3339)
+			case 2:
+				a.ExpiresIn = 3600
+			case 3:
+				a.ExpiresIn, a.ExpiresAt = 3600, time.Now().Add(-time.Hour).Format(time.RFC3339)
+			}
+			ob.Actions = map[string]act{rel: a}
 			if len(kind) == 2 {
 				w.pending[o.Oid] = kind[1]
 			} else {
